@@ -1,1 +1,744 @@
-fn main() {}
+//! relmon — C16: the table store behaves like a keyed map with timestamp-ordered scans.
+//!
+//! Model-based sequence checking at EVERY step, through core-relations' public API only:
+//! random operation sequences on a `Database` holding `SortedWritesTable`s (0..4 key
+//! columns, with / without sort column, three merge functions) and a `DisplacedTable`,
+//! compared with a `BTreeMap<key, row>` model. Operations: staged inserts / removals through
+//! several buffers dropped in random order, merge_all / merge_table, clear_table,
+//! value-level rebuild against the union-find table, clone-and-diverge. Reads after every
+//! operation: len, get_row (present and absent keys), full scan (each live row once),
+//! constrained refine + scan (Eq, EqConst, Lt/Le/Gt/Ge on the sort column and on others),
+//! fast_subset on the sort column, updates_since, and index-backed one- and two-atom rule-set
+//! queries whose plans are built once and re-run after later merges / compactions.
+#[path = "../../eggmon/src/rng.rs"]
+mod rng;
+
+use egglog_core_relations::{AtomId, CachedPlan, ColumnId, Constraint, Database, DisplacedTable, ExternalFunctionId, MutationBuffer, QueryEntry, SortedWritesTable, TableId, Value, make_external_func};
+use egglog_numeric_id::NumericId;
+use egglog_reports::ReportLevel;
+use rng::Rng;
+use serde_json::json;
+use std::collections::{BTreeMap, BTreeSet};
+use std::sync::{Arc, Mutex};
+
+#[derive(Clone, Copy, Debug, PartialEq, Eq)]
+enum MergeKind {
+    /// replace when the value differs
+    Last,
+    /// keep the smaller value
+    Min,
+    /// never replace
+    KeepOld,
+}
+
+#[derive(Clone, Debug)]
+struct Cfg {
+    n_keys: usize,
+    /// columns: keys, one value column, optional timestamp column (the sort column)
+    has_ts: bool,
+    rebuild: Vec<usize>,
+    merge: MergeKind,
+}
+
+impl Cfg {
+    fn n_cols(&self) -> usize {
+        self.n_keys + 1 + self.has_ts as usize
+    }
+    fn vcol(&self) -> usize {
+        self.n_keys
+    }
+}
+
+type Row = Vec<u32>;
+
+#[derive(Clone, Debug, Default)]
+struct ModelTable {
+    rows: BTreeMap<Vec<u32>, Row>,
+    staged_rm: Vec<Vec<u32>>,
+    staged_ins: Vec<Row>,
+}
+
+fn merge_model(cfg: &Cfg, old: &Row, new: &Row) -> Option<Row> {
+    let v = cfg.vcol();
+    match cfg.merge {
+        MergeKind::Last => (old[v] != new[v]).then(|| new.clone()),
+        MergeKind::Min => (new[v] < old[v]).then(|| new.clone()),
+        MergeKind::KeepOld => None,
+    }
+}
+
+impl ModelTable {
+    fn merge(&mut self, cfg: &Cfg) {
+        for k in self.staged_rm.drain(..) {
+            self.rows.remove(&k);
+        }
+        let ins: Vec<Row> = self.staged_ins.drain(..).collect();
+        for r in ins {
+            let k = r[..cfg.n_keys].to_vec();
+            match self.rows.get(&k) {
+                None => {
+                    self.rows.insert(k, r);
+                }
+                Some(old) => {
+                    if let Some(m) = merge_model(cfg, old, &r) {
+                        self.rows.insert(k, m);
+                    }
+                }
+            }
+        }
+    }
+}
+
+#[derive(Clone)]
+struct World {
+    db: Database,
+    tabs: Vec<TableId>,
+    uf: TableId,
+    model: Vec<ModelTable>,
+    /// model union-find (leader = minimum)
+    parent: Vec<u32>,
+    ts: u32,
+}
+
+fn find(p: &[u32], mut x: u32) -> u32 {
+    while p[x as usize] != x {
+        x = p[x as usize];
+    }
+    x
+}
+
+fn val(x: u32) -> Value {
+    Value::new(x)
+}
+
+struct Report {
+    evaluations: u64,
+    distinct: BTreeSet<u64>,
+    counters: BTreeMap<String, u64>,
+    violations: Vec<serde_json::Value>,
+    inconclusive: Vec<String>,
+    samples: Vec<serde_json::Value>,
+}
+
+fn fnv(s: &str) -> u64 {
+    let mut h: u64 = 0xcbf29ce484222325;
+    for b in s.as_bytes() {
+        h ^= *b as u64;
+        h = h.wrapping_mul(0x100000001b3);
+    }
+    h
+}
+
+impl Report {
+    fn count(&mut self, k: &str, n: u64) {
+        *self.counters.entry(k.to_string()).or_insert(0) += n;
+    }
+}
+
+const DOM: u32 = 12;
+
+fn make_world(cfgs: &[Cfg]) -> World {
+    let mut db = Database::default();
+    let uf = db.add_table(DisplacedTable::default(), std::iter::empty(), std::iter::empty());
+    let mut tabs = vec![];
+    for c in cfgs {
+        let cfg = c.clone();
+        let t = SortedWritesTable::new(
+            c.n_keys,
+            c.n_cols(),
+            c.has_ts.then(|| ColumnId::from_usize(c.n_cols() - 1)),
+            c.rebuild.iter().map(|i| ColumnId::from_usize(*i)).collect(),
+            Box::new(move |_state, old, new, out| {
+                let v = cfg.vcol();
+                let take = match cfg.merge {
+                    MergeKind::Last => old[v] != new[v],
+                    MergeKind::Min => new[v] < old[v],
+                    MergeKind::KeepOld => false,
+                };
+                if take {
+                    out.extend_from_slice(new);
+                }
+                take
+            }),
+        );
+        tabs.push(db.add_table(t, std::iter::empty(), std::iter::empty()));
+    }
+    World { db, tabs, uf, model: vec![ModelTable::default(); cfgs.len()], parent: (0..DOM * 4).collect(), ts: 1 }
+}
+
+/// rows of a scan as a sorted multiset
+fn scan_rows(w: &World, t: usize, cs: &[Constraint]) -> Vec<Row> {
+    let table = w.db.get_table(w.tabs[t]);
+    let all = table.all();
+    let sub = if cs.is_empty() { all } else { table.refine(all, cs) };
+    let buf = table.scan(sub.as_ref());
+    let mut out: Vec<Row> = buf.iter().map(|(_, r)| r.iter().map(|v| v.rep()).collect()).collect();
+    out.sort();
+    out
+}
+
+fn holds(c: &Constraint, r: &Row) -> bool {
+    match c {
+        Constraint::Eq { l_col, r_col } => r[l_col.index()] == r[r_col.index()],
+        Constraint::EqConst { col, val } => r[col.index()] == val.rep(),
+        Constraint::LtConst { col, val } => r[col.index()] < val.rep(),
+        Constraint::GtConst { col, val } => r[col.index()] > val.rep(),
+        Constraint::LeConst { col, val } => r[col.index()] <= val.rep(),
+        Constraint::GeConst { col, val } => r[col.index()] >= val.rep(),
+    }
+}
+
+fn gen_constraint(rng: &mut Rng, cfg: &Cfg, ts: u32) -> Constraint {
+    let ncols = cfg.n_cols();
+    let col = if cfg.has_ts && rng.chance(1, 2) { ncols - 1 } else { rng.below(ncols) };
+    let c = ColumnId::from_usize(col);
+    let v = if cfg.has_ts && col == ncols - 1 { val(rng.below(ts as usize + 2) as u32) } else { val(rng.below(DOM as usize) as u32) };
+    match rng.below(7) {
+        0 if ncols >= 2 => Constraint::Eq { l_col: c, r_col: ColumnId::from_usize(rng.below(ncols)) },
+        1 | 0 => Constraint::EqConst { col: c, val: v },
+        2 => Constraint::LtConst { col: c, val: v },
+        3 => Constraint::GtConst { col: c, val: v },
+        4 => Constraint::LeConst { col: c, val: v },
+        _ => Constraint::GeConst { col: c, val: v },
+    }
+}
+
+struct Queries {
+    /// plans compiled once (at "build queries" time) and re-instantiated before every run, the way
+    /// egglog-bridge does: RuleSets are one-shot, CachedPlans are long-lived
+    plans: Vec<(CachedPlan, QSpec, Vec<AtomId>)>,
+    sink: Arc<Mutex<Vec<(u32, Vec<u32>)>>>,
+}
+
+#[derive(Clone, Debug)]
+enum QSpec {
+    One { t: usize, cs: Vec<Constraint> },
+    /// join t1.col1 = t2.col2
+    Two { t1: usize, c1: usize, t2: usize, c2: usize, cs1: Vec<Constraint> },
+}
+
+fn build_queries(w: &mut World, cfgs: &[Cfg], rng: &mut Rng) -> Queries {
+    let sink: Arc<Mutex<Vec<(u32, Vec<u32>)>>> = Arc::new(Mutex::new(vec![]));
+    let mut specs = vec![];
+    let mut funcs: Vec<ExternalFunctionId> = vec![];
+    let nq = 2 + rng.below(3);
+    for qi in 0..nq {
+        let s = sink.clone();
+        let id = qi as u32;
+        funcs.push(w.db.add_external_function(Box::new(make_external_func(move |_st, args| {
+            s.lock().unwrap().push((id, args.iter().map(|v| v.rep()).collect()));
+            Some(Value::new(0))
+        }))));
+    }
+    let ts = w.ts;
+    let tabs = w.tabs.clone();
+    let mut rsb = w.db.new_rule_set();
+    let mut ids = vec![];
+    for qi in 0..nq {
+        let t = rng.below(cfgs.len());
+        let cfg = &cfgs[t];
+        if rng.chance(1, 2) || cfgs.len() < 2 {
+            let cs: Vec<Constraint> = (0..rng.below(3)).map(|_| gen_constraint(rng, cfg, ts + 6)).collect();
+            let mut qb = rsb.new_rule();
+            let vars: Vec<QueryEntry> = (0..cfg.n_cols()).map(|_| qb.new_var().into()).collect();
+            let a = qb.add_atom(tabs[t], &vars, cs.iter()).unwrap();
+            let mut rb = qb.build();
+            rb.call_external(funcs[qi], &vars).unwrap();
+            ids.push((rb.build_with_description(format!("q{qi}")), vec![a]));
+            specs.push(QSpec::One { t, cs });
+        } else {
+            let t2 = rng.below(cfgs.len());
+            let cfg2 = &cfgs[t2];
+            let (c1, c2) = (rng.below(cfg.n_cols().min(cfg.n_keys + 1)), rng.below(cfg2.n_cols().min(cfg2.n_keys + 1)));
+            let cs1: Vec<Constraint> = (0..rng.below(2)).map(|_| gen_constraint(rng, cfg, ts + 6)).collect();
+            let mut qb = rsb.new_rule();
+            let v1: Vec<QueryEntry> = (0..cfg.n_cols()).map(|_| qb.new_var().into()).collect();
+            let mut v2: Vec<QueryEntry> = (0..cfg2.n_cols()).map(|_| qb.new_var().into()).collect();
+            v2[c2] = v1[c1].clone();
+            let a1 = qb.add_atom(tabs[t], &v1, cs1.iter()).unwrap();
+            let a2 = qb.add_atom(tabs[t2], &v2, std::iter::empty()).unwrap();
+            let mut rb = qb.build();
+            let mut args = v1.clone();
+            args.extend(v2.iter().cloned());
+            rb.call_external(funcs[qi], &args).unwrap();
+            ids.push((rb.build_with_description(format!("q{qi}")), vec![a1, a2]));
+            specs.push(QSpec::Two { t1: t, c1, t2, c2, cs1 });
+        }
+    }
+    let rule_set = rsb.build();
+    let plans = ids.into_iter().zip(specs).map(|((rid, atoms), spec)| (rule_set.build_cached_plan(rid), spec, atoms)).collect();
+    Queries { plans, sink }
+}
+
+fn expected_query(w: &World, q: &QSpec) -> Vec<Vec<u32>> {
+    let mut out = vec![];
+    match q {
+        QSpec::One { t, cs } => {
+            for r in w.model[*t].rows.values() {
+                if cs.iter().all(|c| holds(c, r)) {
+                    out.push(r.clone());
+                }
+            }
+        }
+        QSpec::Two { t1, c1, t2, c2, cs1 } => {
+            for r1 in w.model[*t1].rows.values() {
+                if !cs1.iter().all(|c| holds(c, r1)) {
+                    continue;
+                }
+                for r2 in w.model[*t2].rows.values() {
+                    if r1[*c1] == r2[*c2] {
+                        let mut r = r1.clone();
+                        r.extend(r2.iter().copied());
+                        out.push(r);
+                    }
+                }
+            }
+        }
+    }
+    out.sort();
+    out
+}
+
+fn check_all(w: &mut World, cfgs: &[Cfg], rng: &mut Rng, q: Option<&Queries>, rep: &mut Report, hist: &[String]) -> Option<String> {
+    for (t, cfg) in cfgs.iter().enumerate() {
+        let table = w.db.get_table(w.tabs[t]);
+        let m = &w.model[t];
+        // len
+        rep.count("reads", 1);
+        if table.len() != m.rows.len() {
+            return Some(format!("table {t}: len() = {}, model has {} rows", table.len(), m.rows.len()));
+        }
+        // full scan: every live row exactly once
+        let got = scan_rows(w, t, &[]);
+        let want: Vec<Row> = {
+            let mut v: Vec<Row> = m.rows.values().cloned().collect();
+            v.sort();
+            v
+        };
+        rep.count("reads", 1);
+        if got != want {
+            return Some(format!("table {t}: full scan returned {} rows {:?}..., model {} rows {:?}...", got.len(), got.iter().take(4).collect::<Vec<_>>(), want.len(), want.iter().take(4).collect::<Vec<_>>()));
+        }
+        // point lookups
+        for _ in 0..4 {
+            let key: Vec<u32> = if !m.rows.is_empty() && rng.chance(1, 2) { m.rows.keys().nth(rng.below(m.rows.len())).unwrap().clone() } else { (0..cfg.n_keys).map(|_| rng.below(DOM as usize) as u32).collect() };
+            let kv: Vec<Value> = key.iter().map(|x| val(*x)).collect();
+            let got = table.get_row(&kv).map(|r| r.vals.iter().map(|v| v.rep()).collect::<Vec<u32>>());
+            rep.count("reads", 1);
+            if got.as_ref() != m.rows.get(&key) {
+                return Some(format!("table {t}: get_row({key:?}) = {got:?}, model {:?}", m.rows.get(&key)));
+            }
+        }
+        // constrained scans
+        for _ in 0..3 {
+            let cs: Vec<Constraint> = (0..1 + rng.below(2)).map(|_| gen_constraint(rng, cfg, w.ts)).collect();
+            let got = scan_rows(w, t, &cs);
+            let want: Vec<Row> = want.iter().filter(|r| cs.iter().all(|c| holds(c, r))).cloned().collect();
+            rep.count("reads", 1);
+            rep.count("constrained_scans", 1);
+            if got != want {
+                return Some(format!("table {t}: scan under {cs:?} returned {got:?}, model {want:?}"));
+            }
+            // fast_subset
+            if let Some(sub) = table.fast_subset(&cs[0]) {
+                let buf = table.scan(sub.as_ref());
+                let mut rows: Vec<Row> = buf.iter().map(|(_, r)| r.iter().map(|v| v.rep()).collect()).collect();
+                rows.sort();
+                let want1: Vec<Row> = m.rows.values().filter(|r| holds(&cs[0], r)).cloned().collect::<BTreeSet<_>>().into_iter().collect();
+                rep.count("fast_subsets", 1);
+                if rows != want1 {
+                    return Some(format!("table {t}: fast_subset({:?}) scans to {rows:?}, model {want1:?}", cs[0]));
+                }
+            }
+        }
+    }
+    // union-find table: lookups agree with the model partition
+    {
+        let table = w.db.get_table(w.uf);
+        for x in 0..DOM {
+            let got = table.get_row(&[val(x)]).map(|r| r.vals[1].rep());
+            let leader = find(&w.parent, x);
+            let want = (leader != x).then_some(leader);
+            rep.count("reads", 1);
+            if got != want {
+                return Some(format!("union-find table: id {x} maps to {got:?}, model leader {want:?}"));
+            }
+        }
+    }
+    let _ = q;
+    None
+}
+
+/// index-backed queries: plans compiled earlier are re-instantiated against the current database
+/// (with fresh extra constraints on the first atom, e.g. timestamp ranges) and run
+fn check_queries(w: &mut World, cfgs: &[Cfg], rng: &mut Rng, q: Option<&Queries>, rep: &mut Report) -> Option<String> {
+    if let Some(q) = q {
+        q.sink.lock().unwrap().clear();
+        let mut specs: Vec<(QSpec, bool)> = vec![];
+        let ts = w.ts;
+        let mut rsb = w.db.new_rule_set();
+        for (plan, spec, atoms) in &q.plans {
+            let t = match spec {
+                QSpec::One { t, .. } => *t,
+                QSpec::Two { t1, .. } => *t1,
+            };
+            // extra constraints on a cached plan must have a fast pushdown: comparisons on the sort column
+            let extra: Vec<Constraint> = if cfgs[t].has_ts && rng.chance(2, 3) {
+                let col = ColumnId::from_usize(cfgs[t].n_cols() - 1);
+                let v = val(rng.below(ts as usize + 2) as u32);
+                vec![match rng.below(5) {
+                    0 => Constraint::EqConst { col, val: v },
+                    1 => Constraint::LtConst { col, val: v },
+                    2 => Constraint::GtConst { col, val: v },
+                    3 => Constraint::LeConst { col, val: v },
+                    _ => Constraint::GeConst { col, val: v },
+                }]
+            } else {
+                vec![]
+            };
+            let ex: Vec<(AtomId, Constraint)> = extra.iter().map(|c| (atoms[0], c.clone())).collect();
+            let added = rsb.add_rule_from_cached_plan(plan, &ex).is_some();
+            let spec = match spec {
+                QSpec::One { t, cs } => QSpec::One { t: *t, cs: cs.iter().chain(extra.iter()).cloned().collect() },
+                QSpec::Two { t1, c1, t2, c2, cs1 } => QSpec::Two { t1: *t1, c1: *c1, t2: *t2, c2: *c2, cs1: cs1.iter().chain(extra.iter()).cloned().collect() },
+            };
+            specs.push((spec, added));
+        }
+        let rule_set = rsb.build();
+        w.db.run_rule_set(&rule_set, ReportLevel::TimeOnly, None);
+        let all = q.sink.lock().unwrap().clone();
+        for (qi, (spec, added)) in specs.iter().enumerate() {
+            let mut got: Vec<Vec<u32>> = all.iter().filter(|(i, _)| *i == qi as u32).map(|(_, r)| r.clone()).collect();
+            got.sort();
+            let want = expected_query(w, spec);
+            rep.count("reads", 1);
+            rep.count("rule_set_queries", 1);
+            if !want.is_empty() {
+                rep.count("rule_set_queries_nonempty", 1);
+            }
+            if !added {
+                rep.count("rule_set_queries_pruned_as_empty", 1);
+            }
+            if got != want {
+                return Some(format!("rule-set query {spec:?}{} returned {} rows {:?}..., model {} rows {:?}...", if *added { "" } else { " (pruned as provably empty)" }, got.len(), got.iter().take(4).collect::<Vec<_>>(), want.len(), want.iter().take(4).collect::<Vec<_>>()));
+            }
+        }
+    }
+    None
+}
+
+fn main() {
+    let argv: Vec<String> = std::env::args().collect();
+    let mut seed = 1u64;
+    let mut n = 300u64;
+    let mut out = String::new();
+    let mut ops_per = 60usize;
+    let mut threads = 1usize;
+    let mut i = 2;
+    while i + 1 < argv.len() {
+        match argv[i].as_str() {
+            "--seed" => seed = argv[i + 1].parse().unwrap(),
+            "--n" => n = argv[i + 1].parse().unwrap(),
+            "--out" => out = argv[i + 1].clone(),
+            "--ops" => ops_per = argv[i + 1].parse().unwrap(),
+            "--threads" => threads = argv[i + 1].parse().unwrap(),
+            _ => {}
+        }
+        i += 2;
+    }
+    let mut rep = Report { evaluations: 0, distinct: BTreeSet::new(), counters: BTreeMap::new(), violations: vec![], inconclusive: vec![], samples: vec![] };
+    let body = |rep: &mut Report| {
+        let root = Rng::new(seed);
+        let only: Option<u64> = std::env::var("RELMON_ONLY").ok().and_then(|s| s.parse().ok());
+        for case in 0..n {
+            if only.is_some() && only != Some(case) {
+                continue;
+            }
+            let mut rng = root.fork(case);
+            let ntab = 1 + rng.below(3);
+            let cfgs: Vec<Cfg> = (0..ntab)
+                .map(|_| {
+                    let n_keys = rng.below(5);
+                    let has_ts = rng.chance(3, 4);
+                    // rebuilt tables need a commutative merge (the order of re-insertions is not specified)
+                    let rebuild: Vec<usize> = if rng.chance(1, 2) { (0..=n_keys).filter(|_| rng.chance(1, 2)).collect() } else { vec![] };
+                    let merge = if !rebuild.is_empty() { MergeKind::Min } else { *rng.pick(&[MergeKind::Last, MergeKind::Min, MergeKind::KeepOld]) };
+                    Cfg { n_keys, has_ts, rebuild, merge }
+                })
+                .collect();
+            let mut w = make_world(&cfgs);
+            let mut queries: Option<Queries> = None;
+            let mut hist: Vec<String> = vec![format!("tables: {cfgs:?}")];
+            let mut buffers: Vec<(usize, Box<dyn MutationBuffer>)> = vec![];
+            let mut staged_keys: Vec<BTreeSet<Vec<u32>>> = vec![BTreeSet::new(); ntab];
+            let mut crossed_compaction = false;
+            let mut snapshot: Option<(usize, egglog_core_relations::TableVersion, BTreeMap<Vec<u32>, Row>)> = None;
+            let mut failed = false;
+            for step in 0..ops_per {
+                let op = rng.weighted(&[10, 4, 6, 1, 3, 2, 2, 2]);
+                match op {
+                    0 | 1 => {
+                        // stage inserts / removals through a (possibly new) buffer
+                        let t = rng.below(ntab);
+                        let cfg = &cfgs[t];
+                        if buffers.len() < 3 && rng.chance(1, 2) || buffers.iter().all(|b| b.0 != t) {
+                            buffers.push((t, w.db.new_buffer(w.tabs[t])));
+                        }
+                        let bi = buffers.iter().position(|b| b.0 == t).unwrap();
+                        let burst = if rng.chance(1, 6) { 40 } else { 5 };
+                        let k = 1 + rng.below(burst);
+                        for _ in 0..k {
+                            let dom = if cfg.n_keys <= 1 { DOM * 3 } else { DOM };
+                            let key: Vec<u32> = (0..cfg.n_keys).map(|_| rng.below(dom as usize) as u32).collect();
+                            if op == 0 {
+                                if cfg.merge != MergeKind::Min && !staged_keys[t].insert(key.clone()) {
+                                    continue; // non-commutative merge: one write per key per round
+                                }
+                                let mut row = key.clone();
+                                row.push(rng.below(DOM as usize) as u32);
+                                if cfg.has_ts {
+                                    row.push(w.ts);
+                                }
+                                let vals: Vec<Value> = row.iter().map(|x| val(*x)).collect();
+                                buffers[bi].1.stage_insert(&vals);
+                                w.model[t].staged_ins.push(row.clone());
+                                hist.push(format!("stage_insert t{t} {row:?}"));
+                            } else {
+                                let key = if !w.model[t].rows.is_empty() && rng.chance(2, 3) { w.model[t].rows.keys().nth(rng.below(w.model[t].rows.len())).unwrap().clone() } else { key };
+                                let vals: Vec<Value> = key.iter().map(|x| val(*x)).collect();
+                                buffers[bi].1.stage_remove(&vals);
+                                w.model[t].staged_rm.push(key.clone());
+                                hist.push(format!("stage_remove t{t} {key:?}"));
+                            }
+                        }
+                        rep.count("staged_writes", k as u64);
+                        continue; // nothing visible yet
+                    }
+                    2 => {
+                        // drop buffers in random order, merge
+                        rng.shuffle(&mut buffers);
+                        buffers.clear();
+                        let before: Vec<usize> = (0..ntab).map(|t| w.model[t].rows.len() + w.model[t].staged_ins.len()).collect();
+                        if rng.chance(1, 4) && ntab > 0 {
+                            let t = rng.below(ntab);
+                            w.db.merge_table(w.tabs[t]);
+                            w.model[t].merge(&cfgs[t]);
+                            staged_keys[t].clear();
+                            hist.push(format!("merge_table t{t}"));
+                        } else {
+                            w.db.merge_all();
+                            for t in 0..ntab {
+                                w.model[t].merge(&cfgs[t]);
+                                staged_keys[t].clear();
+                            }
+                            hist.push("merge_all".into());
+                            // one timestamp per merge round: all rows pending in a round share a sort key
+                            // (the parallel insert path requires it), so the clock only advances when
+                            // nothing is pending any more
+                            w.ts += 1;
+                        }
+                        rep.count("merges", 1);
+                        let _ = before;
+                    }
+                    3 => {
+                        buffers.clear();
+                        let t = rng.below(ntab);
+                        w.db.clear_table(w.tabs[t]);
+                        w.model[t] = ModelTable::default();
+                        staged_keys[t].clear();
+                        hist.push(format!("clear_table t{t}"));
+                        rep.count("clears", 1);
+                    }
+                    4 => {
+                        // union some ids, then value-level rebuild of the tables that opted in
+                        buffers.clear();
+                        w.db.merge_all();
+                        for t in 0..ntab {
+                            w.model[t].merge(&cfgs[t]);
+                            staged_keys[t].clear();
+                        }
+                        let nun = 1 + rng.below(3);
+                        {
+                            let mut b = w.db.new_buffer(w.uf);
+                            for _ in 0..nun {
+                                let (x, y) = (rng.below(DOM as usize) as u32, rng.below(DOM as usize) as u32);
+                                b.stage_insert(&[val(x), val(y), val(w.ts)]);
+                                let (rx, ry) = (find(&w.parent, x), find(&w.parent, y));
+                                if rx != ry {
+                                    w.parent[rx.max(ry) as usize] = rx.min(ry);
+                                }
+                                hist.push(format!("union {x} {y}"));
+                            }
+                        }
+                        w.db.merge_all();
+                        w.ts += 1;
+                        let to_rebuild: Vec<TableId> = (0..ntab).filter(|t| !cfgs[*t].rebuild.is_empty()).map(|t| w.tabs[t]).collect();
+                        let next_ts = val(w.ts);
+                        w.db.apply_rebuild(w.uf, &to_rebuild, next_ts);
+                        for t in 0..ntab {
+                            let cfg = &cfgs[t];
+                            if cfg.rebuild.is_empty() {
+                                continue;
+                            }
+                            let old: Vec<Row> = w.model[t].rows.values().cloned().collect();
+                            let mut moved = vec![];
+                            for r in old {
+                                let mut nr = r.clone();
+                                for c in &cfg.rebuild {
+                                    nr[*c] = find(&w.parent, nr[*c]);
+                                }
+                                if nr != r {
+                                    if cfg.has_ts {
+                                        let l = nr.len() - 1;
+                                        nr[l] = w.ts;
+                                    }
+                                    w.model[t].rows.remove(&r[..cfg.n_keys].to_vec());
+                                    moved.push(nr);
+                                }
+                            }
+                            w.model[t].staged_ins.extend(moved);
+                            w.model[t].merge(cfg);
+                        }
+                        w.ts += 1;
+                        hist.push("apply_rebuild".into());
+                        rep.count("rebuilds", 1);
+                    }
+                    5 => {
+                        // clone and keep working on the clone (the original is dropped)
+                        buffers.clear();
+                        w.db.merge_all();
+                        for t in 0..ntab {
+                            w.model[t].merge(&cfgs[t]);
+                            staged_keys[t].clear();
+                        }
+                        let w2 = w.clone();
+                        if rng.chance(1, 2) {
+                            // diverge the original first, then check the clone is unaffected
+                            let t = rng.below(ntab);
+                            {
+                                let mut b = w.db.new_buffer(w.tabs[t]);
+                                let row: Vec<Value> = (0..cfgs[t].n_cols()).map(|i| if cfgs[t].has_ts && i == cfgs[t].n_cols() - 1 { val(w.ts) } else { val(rng.below(DOM as usize) as u32) }).collect();
+                                b.stage_insert(&row);
+                            }
+                            w.db.merge_all();
+                        }
+                        w = w2;
+                        hist.push("clone; continue on the clone".into());
+                        rep.count("clones", 1);
+                    }
+                    6 => {
+                        // (re)build the rule-set queries: plans and indexes are created now and reused later
+                        if queries.is_none() || rng.chance(1, 3) {
+                            queries = Some(build_queries(&mut w, &cfgs, &mut rng));
+                            hist.push(format!("build queries {:?}", queries.as_ref().unwrap().plans.iter().map(|p| p.1.clone()).collect::<Vec<_>>()));
+                        }
+                    }
+                    _ => {
+                        // updates_since snapshot / check
+                        let t = rng.below(ntab);
+                        let table = w.db.get_table(w.tabs[t]);
+                        match &snapshot {
+                            Some((st, ver, rows)) if *st == t => {
+                                let now = table.version();
+                                if now.major == ver.major {
+                                    let sub = table.updates_since(ver.minor);
+                                    let buf = table.scan(sub.as_ref());
+                                    let got: BTreeSet<Row> = buf.iter().map(|(_, r)| r.iter().map(|v| v.rep()).collect()).collect();
+                                    // every row that is live now and was not there (or differed) at the snapshot
+                                    for (k, r) in &w.model[t].rows {
+                                        if rows.get(k) != Some(r) && !got.contains(r) {
+                                            rep.violations.push(json!({"sig": format!("C16:{}", fnv(&hist.join("\n"))), "detail": format!("updates_since misses row {r:?} written after the snapshot"), "replay": hist.join("\n")}));
+                                            failed = true;
+                                        }
+                                    }
+                                    for r in &got {
+                                        if w.model[t].rows.get(&r[..cfgs[t].n_keys].to_vec()) != Some(r) {
+                                            rep.violations.push(json!({"sig": format!("C16:{}", fnv(&hist.join("\n"))), "detail": format!("updates_since returns {r:?}, which is not a live row"), "replay": hist.join("\n")}));
+                                            failed = true;
+                                        }
+                                    }
+                                    rep.count("updates_since_checks", 1);
+                                } else {
+                                    crossed_compaction = true;
+                                    rep.count("generation_bumps_observed", 1);
+                                }
+                                snapshot = None;
+                            }
+                            _ => snapshot = Some((t, table.version(), w.model[t].rows.clone())),
+                        }
+                    }
+                }
+                if failed {
+                    break;
+                }
+                if only.is_some() {
+                    eprintln!("step {step}: {} | lens {:?} model {:?}", hist.last().unwrap(), (0..ntab).map(|t| w.db.get_table(w.tabs[t]).len()).collect::<Vec<_>>(), (0..ntab).map(|t| w.model[t].rows.len()).collect::<Vec<_>>());
+                }
+                rep.count("steps_checked", 1);
+                // Protocol: a buffer obtained from Database::new_buffer marks its table as changed for
+                // the NEXT merge only, so buffers are never kept open across a merge (run_rule_set
+                // merges at its end). Drop them before anything that may merge.
+                buffers.clear();
+                let mut why = check_all(&mut w, &cfgs, &mut rng, queries.as_ref(), rep, &hist);
+                if why.is_none() && queries.is_some() {
+                    if w.model.iter().any(|m| !m.staged_ins.is_empty() || !m.staged_rm.is_empty()) {
+                        // pending writes of other tables would be merged by run_rule_set's own merge_all
+                        w.db.merge_all();
+                        for t in 0..ntab {
+                            w.model[t].merge(&cfgs[t]);
+                            staged_keys[t].clear();
+                        }
+                        w.ts += 1;
+                        hist.push("merge_all (before queries)".into());
+                    }
+                    why = check_queries(&mut w, &cfgs, &mut rng, queries.as_ref(), rep);
+                }
+                if let Some(why) = why {
+                    let replay = hist.join("\n");
+                    rep.violations.push(json!({"sig": format!("C16:{}", fnv(&replay)), "detail": format!("case {case}, after step {step} ({}): {why}", hist.last().unwrap()), "replay": replay}));
+                    failed = true;
+                    break;
+                }
+            }
+            drop(buffers);
+            rep.evaluations += 1;
+            let total: usize = w.model.iter().map(|m| m.rows.len()).sum();
+            if total > 0 && !failed {
+                rep.distinct.insert(fnv(&format!("{:?}", w.model.iter().map(|m| &m.rows).collect::<Vec<_>>())));
+            }
+            if crossed_compaction {
+                rep.count("sequences_crossing_generation_bump", 1);
+            }
+            if case < 2 {
+                rep.samples.push(json!({"ops": hist.iter().take(60).collect::<Vec<_>>()}));
+            }
+        }
+    };
+    if threads > 1 {
+        let pool = egglog_concurrency::ThreadPool::new(threads);
+        pool.install(|| body(&mut rep));
+    } else {
+        body(&mut rep);
+    }
+    for (name, v) in egglog_core_relations::verif::snapshot() {
+        if v > 0 {
+            rep.count(&format!("path:{name}"), v);
+        }
+    }
+    let j = json!({
+        "property": "C16",
+        "evaluations": rep.evaluations,
+        "distinct": rep.distinct.iter().collect::<Vec<_>>(),
+        "rule": "random operation sequences (staged inserts/removals through several buffers, merge_all/merge_table, clear, union + value-level rebuild, clone-and-continue, rule-set queries built once and re-run) on 1-3 SortedWritesTables (0..4 keys, with/without sort column, merge = last/min/keep-old) plus the union-find table, compared after every visible step with a BTreeMap model: len, full scan, get_row, constrained scans, fast_subset, updates_since, index-backed 1- and 2-atom queries. Non-trivial = sequence ending with a non-empty table; distinct by final model contents.",
+        "samples": rep.samples,
+        "counters": rep.counters,
+        "violations": rep.violations,
+        "inconclusive": rep.inconclusive,
+        "notes": [],
+    });
+    if out.is_empty() {
+        println!("{}", serde_json::to_string_pretty(&j).unwrap());
+    } else {
+        std::fs::write(&out, serde_json::to_string_pretty(&j).unwrap()).unwrap();
+    }
+}
